@@ -2,6 +2,8 @@ import Amgcl.Properties.C01
 import Amgcl.Properties.C05e
 import Amgcl.Proofs.SolverGMRESC
 import Amgcl.Model.SolverAsFound
+import Amgcl.Proofs.KrylovCGStarHerm
+import Amgcl.Proofs.KrylovCGExample
 import Mathlib.Data.Complex.Basic
 /-!
 # C05 (seventh part) — complex-valued systems: the solver models over a field with a conjugation
@@ -17,7 +19,12 @@ functions at the Gaussian rationals against the real templates at `std::complex<
   `givens_rotations.hpp` written out (`Model/SolverGMRESC.lean`, extra parameter `conj`; at `conj = id` it IS the real-valued model:
   `gmresC_id`, `fgmresC_id`) the theorem is re-proved: the returned state has just been through `head` (`gmres_cplx_truthful`,
   `fgmres_cplx_truthful`).
-* **(b)** `cg_cplx_conjugacy`: see `Properties/C05g` second half (abstract recurrence over a sesquilinear form).
+* **(b)** `cg_sesq_conjugacy` / `cg_cplx_conjugacy`: CG's residuals are mutually `P`-orthogonal and its search directions mutually
+  `A`-conjugate with respect to the sesquilinear form, for the CG MODEL (`Model/SolverCG.lean`, which needs no `conj` parameter: the
+  conjugation lives in `ip`).  The proof of `C05b.cg_conjugacy` does NOT transfer literally (it scales the second argument of a
+  bilinear form); re-proved in `Proofs/KrylovCGStar.lean` using exactly: `conj` a ring homomorphism (`conj_add`, `conj_mul`) with
+  `conj (conj a) = a`; the form additive in both arguments, `⟨a u, v⟩ = a⟨u, v⟩`, `⟨u, a v⟩ = conj a · ⟨u, v⟩`, `⟨u, v⟩ = conj ⟨v, u⟩`;
+  `A` and `P` self-adjoint for it.  No positivity and no order.
 * **(c) kernel-checked counterexamples on the MODEL for the four repaired conjugation defects** (2×2 Gaussian-rational inputs, the
   as-found statement as a separate definition in `Model/SolverAsFound.lean` / `Model/SolverGivensStar.lean`):
   `bicgstab_asfound_counterexample`, `givens_asfound_counterexample`, `idrs_asfound_counterexample`,
@@ -142,6 +149,64 @@ example : ∃ it res x w, GMRES.solveC (starRingEnd ℂ)
 
 end nonvacuous
 
+
+/-! ## (b) conjugacy of CG over a sesquilinear Hermitian form -/
+section conjugacy
+open Amgcl.Krylov Amgcl.Energy.Bridge Matrix
+variable {K : Type} [Field K] [DecidableEq K] [LT K] [DecidableLT K]
+
+/-- **`cg_sesq_conjugacy`** (the general statement).  `ip` any inner-product functor that is a function `Bs` of the denoted vectors
+(`IpDenotes`), `conj` a ring homomorphism of `K`, and the hypotheses `Sesq conj`: `conj ∘ conj = id`; `Bs` additive in both arguments,
+`Bs (a • u) v = a * Bs u v`, `Bs u (a • v) = conj a * Bs u v`, `Bs u v = conj (Bs v u)`; the denoted matrix and the linear map `Pl` the
+preconditioner denotes are self-adjoint for `Bs`.  No breakdown before pass `k` of the model (`ρ_i = ip r_i (P r_i) ≠ 0`,
+`ip (A p_i) p_i ≠ 0`, `i < k`).  Then for `i ≠ j`, both `≤ k`: `ip r_i (P r_j) = 0` and `ip p_i (A p_j) = 0`. -/
+theorem cg_sesq_conjugacy (n : ℕ) (ip : Vec K → Vec K → K) (sqrt : K → K) (A : CRS K) (hA : A.WF) (hn : A.nrows = n)
+    (hm : A.ncols = n) (P : Vec K → Vec K) (Pl : (Fin n → K) →ₗ[K] (Fin n → K)) (hP : PDenotes n P Pl)
+    (Bs : (Fin n → K) → (Fin n → K) → K) (hip : IpDenotes n ip Bs) (ws : CG.Work K) (f x0 : Vec K) (e : K)
+    (conj : K →+* K) (hs : (cgDataS n A Pl Bs f x0).Sesq conj)
+    (k : ℕ) (hnb : ModelNoBreakdownI ip (cgPassI ip sqrt A P ws f x0 e) k) (i j : ℕ) (hi : i ≤ k) (hj : j ≤ k) (hij : i ≠ j)
+    (z : Vec K) :
+    ip (cgPassI ip sqrt A P ws f x0 e i).w.r (P (cgPassI ip sqrt A P ws f x0 e j).w.r) = 0 ∧
+    ip (cgPassI ip sqrt A P ws f x0 e (i + 1)).w.p (spmv 1 A (cgPassI ip sqrt A P ws f x0 e (j + 1)).w.p 0 z) = 0 :=
+  model_conjugacy_star n ip sqrt A hA hn hm P Pl hP Bs hip ws f x0 e conj hs k hnb i j hi hj hij z
+
+/-- **`cg_cplx_conjugacy`**: amgcl's inner product `ipC conj x y = Σ x_i · conj y_i`, `conj` an involutive ring homomorphism, `A`
+HERMITIAN as a denoted matrix (`A i j = conj (A j i)`), the preconditioner a linear map self-adjoint for `Σ u_i · conj v_i`, no
+breakdown before pass `k`: the residuals are mutually `P`-orthogonal and the search directions mutually `A`-conjugate. -/
+theorem cg_cplx_conjugacy (n : ℕ) (conj : K →+* K) (hcc : ∀ a, conj (conj a) = a) (sqrt : K → K) (A : CRS K) (hA : A.WF)
+    (hn : A.nrows = n) (hm : A.ncols = n) (hherm : ∀ i, i < n → ∀ j, j < n → A.get i j = conj (A.get j i))
+    (P : Vec K → Vec K) (Pl : (Fin n → K) →ₗ[K] (Fin n → K)) (hP : PDenotes n P Pl)
+    (hPsym : ∀ u v, hermDot n conj (Pl u) v = hermDot n conj u (Pl v)) (ws : CG.Work K) (f x0 : Vec K) (e : K)
+    (k : ℕ) (hnb : ModelNoBreakdownI (ipC conj) (cgPassI (ipC conj) sqrt A P ws f x0 e) k) (i j : ℕ) (hi : i ≤ k) (hj : j ≤ k)
+    (hij : i ≠ j) (z : Vec K) :
+    ipC conj (cgPassI (ipC conj) sqrt A P ws f x0 e i).w.r (P (cgPassI (ipC conj) sqrt A P ws f x0 e j).w.r) = 0 ∧
+    ipC conj (cgPassI (ipC conj) sqrt A P ws f x0 e (i + 1)).w.p
+      (spmv 1 A (cgPassI (ipC conj) sqrt A P ws f x0 e (j + 1)).w.p 0 z) = 0 :=
+  cg_sesq_conjugacy n (ipC conj) sqrt A hA hn hm P Pl hP (hermDot n conj) (ipC_denotes n conj) ws f x0 e conj
+    (hermDot_sesq n conj hcc A hherm Pl hPsym f x0) k hnb i j hi hj hij z
+
+/-- the hypotheses are satisfiable: the SPD 3×3 run of `Proofs/KrylovCGExample.lean` at `ℚ` with `conj = id` (three passes without
+breakdown; residuals non-zero there) -/
+example (i j : ℕ) (hi : i ≤ 3) (hj : j ≤ 3) (hij : i ≠ j) :
+    ipC (RingHom.id ℚ) (cgPassI (ipC (RingHom.id ℚ)) Amgcl.rsqrt Ex3.A₃ Ex3.P₃ (CG.Work.fresh 3) Ex3.f₃ Ex3.x₃ 0 i).w.r
+      (Ex3.P₃ (cgPassI (ipC (RingHom.id ℚ)) Amgcl.rsqrt Ex3.A₃ Ex3.P₃ (CG.Work.fresh 3) Ex3.f₃ Ex3.x₃ 0 j).w.r) = 0 ∧
+    ipC (RingHom.id ℚ) (cgPassI (ipC (RingHom.id ℚ)) Amgcl.rsqrt Ex3.A₃ Ex3.P₃ (CG.Work.fresh 3) Ex3.f₃ Ex3.x₃ 0 (i + 1)).w.p
+      (spmv 1 Ex3.A₃ (cgPassI (ipC (RingHom.id ℚ)) Amgcl.rsqrt Ex3.A₃ Ex3.P₃ (CG.Work.fresh 3) Ex3.f₃ Ex3.x₃ 0 (j + 1)).w.p 0 #[]) = 0 :=
+  cg_cplx_conjugacy 3 (RingHom.id ℚ) (fun _ => rfl) Amgcl.rsqrt Ex3.A₃ Ex3.hA₃ rfl rfl Ex3.hsym₃ Ex3.P₃ Ex3.Pl₃ Ex3.hP₃
+    (fun u v => Ex3.hPsym₃ u v) (CG.Work.fresh 3) Ex3.f₃ Ex3.x₃ 0 3 Ex3.hnb₃ i j hi hj hij #[]
+
+end conjugacy
+
+/-- the statement at the Gaussian rationals with a genuinely complex Hermitian matrix, evaluated by the kernel on the model itself:
+`A = [[2, i], [−i, 3]]` (Hermitian positive definite), `f = (1, 1+i)`, `x₀ = 0`, identity preconditioner: `⟨r₀, r₁⟩ = 0`,
+`⟨p₀, A p₁⟩ = 0`, both residuals non-zero, and the second pass reaches the exact solution (`r₂ = 0`, finite termination) -/
+def hA2 : CRS GQ := ⟨2, #[[(0, ⟨2, 0⟩), (1, ⟨0, 1⟩)], [(0, ⟨0, -1⟩), (1, ⟨3, 0⟩)]]⟩
+def hf2 : Vec GQ := #[⟨1, 0⟩, ⟨1, 1⟩]
+def cgGQ (k : Nat) : CG.St GQ := (CG.body gqIp id hA2 vcopy)^[k] (CG.init gqIp id hA2 (CG.Work.fresh 2) hf2 #[⟨0, 0⟩, ⟨0, 0⟩] 0)
+example : gqIp (cgGQ 0).w.r (cgGQ 1).w.r = 0 ∧ gqIp (cgGQ 1).w.p (spmv 1 hA2 (cgGQ 2).w.p 0 #[]) = 0 ∧
+    (cgGQ 0).w.r ≠ #[⟨0, 0⟩, ⟨0, 0⟩] ∧ (cgGQ 1).w.r ≠ #[⟨0, 0⟩, ⟨0, 0⟩] ∧ (cgGQ 2).w.r = #[⟨0, 0⟩, ⟨0, 0⟩] ∧
+    residual hf2 hA2 (cgGQ 2).x = #[⟨0, 0⟩, ⟨0, 0⟩] := by decide +kernel
+
 /-! ## (c) the four repaired conjugation defects: counterexamples on the model, Gaussian rationals
 
 Input of the BiCGStab example: `A = [[2, i], [1, 1+i]]` (non-Hermitian), `f = (1, 0)`, `x₀ = 0`, identity preconditioner, `eps = 0`.  The
@@ -202,7 +267,7 @@ residual-minimising `om = −7i/25` (`tᴴ(s − om t) = 0`); with `ts = inner_p
 `tᴴ(s − om t) = −14i ≠ 0`. -/
 theorem idrs_asfound_counterexample :
     IDRs.omegaFnC id gqIp sqrt25 0 gt gs = ⟨0, -7 / 25⟩ ∧ idrsOrth (IDRs.omegaFnC id gqIp sqrt25 0 gt gs) = 0 ∧
-    IDRs.omegaFn gqIp sqrt25 0 gt gs = ⟨0, 7 / 25⟩ ∧ idrsOrth (IDRs.omegaFn gqIp sqrt25 0 gt gs) = ⟨0, -14⟩ := by
+    IDRs.omegaFnAsFound gqIp sqrt25 0 gt gs = ⟨0, 7 / 25⟩ ∧ idrsOrth (IDRs.omegaFnAsFound gqIp sqrt25 0 gt gs) = ⟨0, -14⟩ := by
   decide +kernel
 
 def gR : FArr (Vec GQ) := ⟨fun i => if i = 0 then #[⟨1, 0⟩, ⟨0, 1⟩] else #[⟨1, 0⟩, ⟨1, 0⟩]⟩
